@@ -262,44 +262,8 @@ func runC16(c *Ctx) {
 	})
 
 	// ---- R16f
-	c.Rule("R16f", "scratch planner states inherit the plan options: every `state` literal built inside a method of the mysql/postgres planner state (used to compute reverse statements) sets PlanOptions to the receiver's PlanOptions, so the requested qualifier also governs reverse statements", 3)
-	for _, pp := range []string{pMysql, pPostgres} {
-		c.AllFuncs(false, func(fi *FuncInfo) {
-			if fi.Pkg.PkgPath != pp || recvName(fi.Decl) != "state" || len(fi.Decl.Recv.List[0].Names) == 0 {
-				return
-			}
-			info := fi.Info()
-			recv := info.ObjectOf(fi.Decl.Recv.List[0].Names[0])
-			n := 0
-			ast.Inspect(fi.Decl.Body, func(m ast.Node) bool {
-				cl, ok := m.(*ast.CompositeLit)
-				if !ok || !typeIs(info.TypeOf(cl), pp, "state") {
-					return true
-				}
-				n++
-				inherits := false
-				for _, e := range cl.Elts {
-					kv, ok := e.(*ast.KeyValueExpr)
-					if !ok {
-						continue
-					}
-					if k, ok := kv.Key.(*ast.Ident); ok && k.Name == "PlanOptions" {
-						if se, ok := kv.Value.(*ast.SelectorExpr); ok && se.Sel.Name == "PlanOptions" {
-							if x, ok := se.X.(*ast.Ident); ok && info.ObjectOf(x) == recv {
-								inherits = true
-							}
-						}
-					}
-				}
-				key := fi.Name + "|state literal"
-				if n > 1 {
-					key += "#" + itoa(n)
-				}
-				c.Check("R16f", key, cl.Pos(), inherits, "%s builds a scratch planner state without the receiver's PlanOptions: statements planned through it (typically the reverse statement) ignore the requested schema qualifier", fi.Name)
-				return true
-			})
-		})
-	}
+	c.Rule("R16f", ruleTextScratchStates, 3)
+	checkScratchStates(c, "R16f")
 
 	// ---- R16e
 	for _, pp := range []string{pMysql, pPostgres, pSqlite} {
